@@ -32,6 +32,16 @@ pub struct KeyedData {
     pub data: Vec<u8>,
 }
 
+/// type of the content filter scenarios (C26): filterable INT32 and STRING members
+#[derive(DdsType, Debug, Clone, PartialEq)]
+pub struct FilterData {
+    #[dust_dds(key)]
+    pub id: i32,
+    pub val: i32,
+    pub name: String,
+    pub seq: u32,
+}
+
 pub fn payload(w: u8, seq: u32, len: usize) -> Vec<u8> {
     let mut x: u32 = 0x9e3779b9 ^ ((w as u32) << 24) ^ seq.wrapping_mul(2654435761);
     (0..len)
@@ -213,6 +223,9 @@ pub struct World {
     pub decoys: Vec<DataWriterAsync<KeyedData>>,
     pub conds: Vec<dust_dds::dds_async::condition::StatusConditionAsync>,
     pub domain: i32,
+    pub fw: Option<DataWriterAsync<FilterData>>,
+    pub fr: Vec<DataReaderAsync<FilterData>>, // [filtered, control]
+    pub fseq: u32,
 }
 
 fn dur_kind_ms(v: &Value) -> DurationKind {
@@ -284,7 +297,7 @@ pub fn reader_qos(q: &Value) -> DataReaderQos {
 
 impl World {
     pub fn new(domain: i32) -> Self {
-        World { core: global().sim.core.clone(), parts: vec![], writers: vec![], readers: vec![], decoys: vec![], conds: vec![], domain }
+        World { core: global().sim.core.clone(), parts: vec![], writers: vec![], readers: vec![], decoys: vec![], conds: vec![], domain, fw: None, fr: vec![], fseq: 0 }
     }
 
     pub async fn add_participant(&mut self) -> usize {
@@ -694,6 +707,61 @@ impl World {
             "hold" => {
                 core.lock().hold_user = st["on"].as_bool().unwrap_or(true);
                 core.log(json!({"ev": "Hold", "on": st["on"]}));
+            }
+            "merge_held" => {
+                let n = core.merge_held_user();
+                core.log(json!({"ev": "MergeHeld", "merged": n}));
+            }
+            "cft_writer" => {
+                // writer of the related topic "F" on participant `part`
+                let part = st["part"].as_u64().unwrap_or(0) as usize;
+                let qos = writer_qos(&st["qos"]);
+                let r: Result<_, DdsError> = async {
+                    let t = self.parts[part].p.create_topic::<FilterData>("F", "FilterData", QosKind::Default, NO_LISTENER, NO_STATUS).await?;
+                    self.parts[part].publisher.create_datawriter::<FilterData>(&t, QosKind::Specific(qos), NO_LISTENER, NO_STATUS).await
+                }.await;
+                core.log(json!({"ev": "CftWriter", "res": res_name(&r)}));
+                self.fw = r.ok();
+            }
+            "cft_readers" => {
+                // a reader on a content filtered topic of "F" and a control reader on "F" itself, same subscriber
+                let part = st["part"].as_u64().unwrap_or(1) as usize;
+                let qos = reader_qos(&st["qos"]);
+                let expr = st["expr"].as_str().unwrap().to_string();
+                let params: Vec<String> = st["params"].as_array().unwrap().iter().map(|x| x.as_str().unwrap().to_string()).collect();
+                let r: Result<_, DdsError> = async {
+                    let p = &self.parts[part].p;
+                    let t = match p.create_topic::<FilterData>("F", "FilterData", QosKind::Default, NO_LISTENER, NO_STATUS).await {
+                        Ok(t) => t,
+                        Err(_) => p.find_topic::<FilterData>("F", Duration::new(1, 0)).await?,
+                    };
+                    let cft = p.create_contentfilteredtopic("F_filtered", &t, expr.clone(), params.clone()).await?;
+                    let filtered = self.parts[part].subscriber.create_datareader::<FilterData>(&cft, QosKind::Specific(qos.clone()), NO_LISTENER, NO_STATUS).await?;
+                    let control = self.parts[part].subscriber.create_datareader::<FilterData>(&t, QosKind::Specific(qos), NO_LISTENER, NO_STATUS).await?;
+                    Ok(vec![filtered, control])
+                }.await;
+                core.log(json!({"ev": "CftReaders", "res": res_name(&r), "expr": expr, "params": params, "field": st["field"], "op": st["op"]}));
+                self.fr = r.unwrap_or_default();
+            }
+            "write_f" => {
+                self.fseq += 1;
+                let d = FilterData { id: st["id"].as_i64().unwrap_or(0) as i32, val: st["val"].as_i64().unwrap_or(0) as i32,
+                                     name: st["name"].as_str().unwrap_or("").to_string(), seq: self.fseq };
+                let res = match &self.fw {
+                    Some(w) => sim::with_timeout(&core, 5_000_000_000, w.write(d.clone(), None)).await.unwrap_or(Err(DdsError::Timeout)),
+                    None => Err(DdsError::AlreadyDeleted),
+                };
+                core.log(json!({"ev": "WriteF", "seq": d.seq, "id": d.id, "val": d.val, "name": d.name, "res": res_name(&res)}));
+            }
+            "take_f" => {
+                for (k, which) in ["filtered", "control"].iter().enumerate() {
+                    if let Some(r) = self.fr.get(k) {
+                        let res = r.take(i32::MAX, ANY_SAMPLE_STATE, ANY_VIEW_STATE, ANY_INSTANCE_STATE).await;
+                        let samples: Vec<Value> = res.as_ref().map(|l| l.iter().filter_map(|s| s.data.as_ref())
+                            .map(|d| json!({"seq": d.seq, "id": d.id, "val": d.val, "name": d.name})).collect()).unwrap_or_default();
+                        core.log(json!({"ev": "TakeF", "which": which, "res": res_name(&res), "samples": samples, "final": st["final"].as_bool().unwrap_or(false)}));
+                    }
+                }
             }
             "quiesce" => {
                 let ms = st["ms"].as_i64().unwrap_or(3000);
